@@ -196,4 +196,7 @@ def run(prog, rep, tier, cfg):
     # ---- early terminations are drained completely (rows shared with C15)
     import props.c15 as c15
     c15.early_termination_drain(prog, rep, X, prefix='cron:')
+    # ---- error discipline: no Result produced in these crates is silently discarded
+    X.no_dropped_results('K14', 'results-not-discarded', ['fil_actor_cron', 'fil_actor_power', 'fil_actor_miner', 'fil_actor_market', 'fil_actor_reward'], 'no Result of a call is discarded')
+
 
